@@ -10,3 +10,5 @@ def check(rep, tier):
     from contracts import containers
     containers.run_ground(rep, tier)
     containers.run_exact(rep, tier, clauses=('K-structure',))
+    from contracts import rules_numeric
+    rules_numeric.run(rep, tier, clauses=('N-shape',))
